@@ -20,7 +20,7 @@ def _c17_case(c):
     if p[0] in ("T", "A", "W", "V", "U", "u", "X"):
         _, pred, mr, mn, mx, tbl, dflt, cn, kind, data, script, opts = p
         man = ""
-        if kind[0] in "Mm":
+        if kind[0] in "MmIi":
             man, kind = kind[0], kind[1:]
         opts = [] if opts == "-" else opts.split(",")
         unknown, preauth = "u" in opts, "preauth" in opts
@@ -129,6 +129,8 @@ def _vm_goal(c, o):
         pol = "(table_policy %s %s %s %s [%s] %s)" % (_vm_pred(pred), _z(mr), _z(mn), _z(mx),
                                                      "; ".join(_z(x) for x in _c17_ints(tbl)), _z(dflt))
         man = None
+        if kind[0] in "Ii":
+            return None
         if kind[0] in "Mm":
             man, kind = kind[0] == "M", kind[1:]
         bk = {"N": "KNone", "B": "KNoBody", "R": "KReplay", "O": "KOneShot"}.get(kind[0]) or "(KGetBodyErr %s%%nat)" % kind[1:]
